@@ -53,7 +53,7 @@ ASSUME = [
     "_process_message_data/parse_message) delivers it when it is the only line of the stream",
     "spec oracle: lines are labelled by the generator (well-formed JSON-RPC 2.0 message with unique tag / junk); lines whose "
     "validity the property text leaves open (lenient acceptance, batches) are judged by the correspondence only",
-    "the main stream's receive end stays open and no per-request stream is registered via new_request_stream",
+    "the main stream's receive end stays open; per-request streams (new_request_stream) are registered in one dedicated tie only",
 ]
 
 S_E, S_EUR, S_AST = "\u00e9", "\u20ac", "\U0001F600"
@@ -829,6 +829,48 @@ async def _exited_run(chunks, exited):
     return [canon(m) for m in main]
 
 
+async def _reqstream_run(chunks, ids):
+    """one-shot per-request streams (StdioClient.new_request_stream) are registered for `ids` before the child writes anything:
+    an EXTRA way of getting an answer - the read stream still carries every message"""
+    proc = FakeProcess()
+    with patched_open_process(proc):
+        client = new_client()
+        async with client:
+            side = [client.new_request_stream(i) for i in ids]
+            main, _notif, _alive = await feed_and_collect(proc, client, chunks)
+            proc.stdout.close()
+            for _ in range(50):
+                await anyio.sleep(0)
+            main += drain(client._incoming_recv)
+            got_side = sum(len(drain(s_)) for s_ in side)
+    return [canon(m) for m in main], got_side
+
+
+def tie_request_streams(ctx):
+    rng = ctx.rng
+    for si in range(ctx.budget(12, 60)):
+        st = random_stream(ctx, rng.choice([3, 8, 30, 80]), 950000 + 1000 * si)
+        data = st["bytes"] + (b"" if st["bytes"].endswith(b"\n") else b"\n")
+        n = len(data)
+        import re as _re
+        ids = sorted({m.decode() for m in _re.findall(rb'"id":\s?"(m\d+)"', data)})
+        ids = [i for k, i in enumerate(ids) if k % 2 == 0]
+        for k in (0, 3):
+            cuts = tuple(sorted(rng.sample(range(1, n), k=min(k, n - 1))))
+            chunks = apply_cuts(data, cuts)
+            plain, _ = anyio.run(_reqstream_run, chunks, [])
+            withs, n_side = anyio.run(_reqstream_run, chunks, ids)
+            case = {"stream": data.hex(), "cuts": list(cuts), "request_streams_registered_for": ids}
+            ctx.case(case, nontrivial=bool(ids))
+            ctx.count("request-streams:%s" % ("none" if not ids else "some"))
+            ctx.spec_total += 1
+            if withs != plain:
+                lost = [x for x in plain if x not in withs]
+                ctx.spec_violation("read-stream-loses-what-a-request-stream-got", case,
+                                   f"{len(plain)} messages on the read stream without per-request streams, {len(withs)} with them "
+                                   f"({n_side} delivered on the side); first missing: {lost[0][:160] if lost else None}")
+
+
 def tie_exited_child(ctx):
     """What the child wrote before it exited is delivered like the output of a child that stays (one-shot servers, a crash
     right after the last answer): same stream, same chunking, exit status present vs absent."""
@@ -884,6 +926,7 @@ def explore(ctx, drv):
     tie_routing(ctx, drv)
     tie_text_chunks(ctx, drv)
     tie_exited_child(ctx)
+    tie_request_streams(ctx)
     if ctx.thorough:
         tie_real_child(ctx, drv)
     ctx.exhaustive = True
@@ -921,6 +964,14 @@ def run(ctx):
 def replay(ctx, data):
     drv = RawDriver(lib.Driver("C05"))
     case = data.get("case", {})
+    if "request_streams_registered_for" in case:
+        chunks = apply_cuts(bytes.fromhex(case["stream"]), tuple(case["cuts"]))
+        plain, _ = anyio.run(_reqstream_run, chunks, [])
+        withs, n_side = anyio.run(_reqstream_run, chunks, case["request_streams_registered_for"])
+        print(len(plain), "messages on the read stream without per-request streams,", len(withs), "with them")
+        if plain != withs:
+            print("REPRODUCED", data.get("class"))
+        return 1 if plain != withs else 0
     if "child" in case:
         chunks = apply_cuts(bytes.fromhex(case["stream"]), tuple(case["cuts"]))
         stays, gone = anyio.run(_exited_run, chunks, False), anyio.run(_exited_run, chunks, True)
